@@ -1462,7 +1462,7 @@ impl ContinuityStreamCache {
         seq_index: &[SeqSeekIndexEntryV1],
         from_seq: u64,
     ) -> io::Result<u64> {
-        let start_offset = best_offset_for_seq(seq_index, from_seq);
+        let start_offset = best_offset_for_seq(seq_index, from_seq, sidecar_path, continuity_id)?;
         let mut file = File::open(sidecar_path)?;
         let sidecar_len = file.metadata()?.len();
         file.seek(SeekFrom::Start(start_offset))?;
@@ -1556,7 +1556,8 @@ impl ContinuityStreamCache {
         } else {
             "path.full_sidecar_window.within_index_stride"
         });
-        let start_offset = best_offset_for_seq(&seq_index, start_seq);
+        let start_offset =
+            best_offset_for_seq(&seq_index, start_seq, sidecar_path, continuity_id)?;
         let mut file = File::open(sidecar_path)?;
         file.seek(SeekFrom::Start(start_offset))?;
         let mut reader = BufReader::new(file);
